@@ -36,7 +36,7 @@ QUICK_RUNS = 3000
 THOROUGH_RUNS = 200_000
 EXPECT_PROBES = ["msg_aged_exactly_max", "msg_aged_max_plus_1us", "silence_exactly_max_age", "silence_max_minus_1us",
                  "failure_at_block_end", "backoff_doubled", "backoff_hit_max", "reset_on_success", "reset_after_not_working",
-                 "timer_and_msg_same_instant", "pool_variant", "failure_while_not_working"]
+                 "timer_and_msg_same_instant", "pool_variant", "failure_while_not_working", "results_back_to_back"]
 
 BAD_KINDS = ["bad_state", "bad_relay", "critical_error", "nan_capacity", "stale_1us", "stale_1s"]
 NW, UN, WK = "NOT_WORKING", "UNCERTAIN", "WORKING"
@@ -390,6 +390,19 @@ def scenario(sim: Sim) -> None:
                 on_result(b, rk)
                 if pool:
                     sim.spawn(ptracker.update_status(succ, fail))
+                    if ch.chance("second_result_back_to_back", 0.3):
+                        # results of two requests for disjoint battery sets finishing in the same loop iteration: the
+                        # second one does not mention this battery (nothing the trackers have consumed in between)
+                        ob = [x for x in bats if x is not b][ch.draw("other_bat", len(bats) - 1)]
+                        rk2 = ["none", "succeeded", "failed"][ch.weighted("res_kind2", [2, 2, 1])]
+                        sim.probe("results_back_to_back")
+                        if rk2 == "failed":
+                            sim.fault("set_power_failed")
+                        sim.ev("result", rk2, ob.bid)
+                        sim.note(f"  + back-to-back set_power result for {ob.bid}: {rk2}")
+                        on_result(ob, rk2)
+                        sim.spawn(ptracker.update_status({ob.bid} if rk2 == "succeeded" else set(),
+                                                         {ob.bid} if rk2 == "failed" else set()))
                 else:
                     sim.spawn(result_tx.send(SetPowerResult(succeeded=succ, failed=fail)))
             else:
